@@ -24,7 +24,8 @@ implementation's own outputs).
 * HISTORIES: `history_answers` — along every run every uplink carries exactly the owed answers; after
   a downlink accepted in a Class A window (judged by the reference tracker) the device owes the
   fitting prefix of the answers to that frame, sticky answers are repeated until the next such
-  downlink, all others are sent once (`AnsStep`).
+  downlink, all others are sent once (`AnsStep`); `history_effects` — at every such uplink the state
+  after is the `Answers`-outcome of the frame's command streams applied to the state before.
 -/
 open Model Gen.Region
 
@@ -1348,6 +1349,69 @@ theorem history_answers_init {σ} (g : Rng σ) (r : RegionId) (maxPower : Nat) (
     TraceR (AnsStep r) (none, []) (evs.zip outs) :=
   history_answers g r _ rs (none, []) (ansRel_init r maxPower gain hg) evs hv ms' outs h
 
+
+/-- **what an accepted Class A downlink did to the device**, `mi` the state before the uplink, `mi'`
+after the receive procedure (no radio fault): configuration and channel plan of `mi'` are exactly the
+result of the frame's command streams (`Answers`: every acknowledged request took effect as
+commanded, every rejected one changed nothing) applied to `mi`'s configuration and to the channel
+plan as channel selection left it; the queue of `mi'` is the fitting prefix of the answers. -/
+def Effects {σ} (g : Rng σ) (mi : MacState) (rsi : σ) (data : List Nat) (fport : Nat) (conf : Bool) (d : RxData) (snr : Int)
+    (mi' : MacState) : Prop :=
+  ∃ so m1 rs1 as1 as2 cfg1 rg1 mk s',
+    macSend g mi data fport conf rsi = .ok (some so, m1, rs1) ∧ m1.cfg = mi.cfg ∧
+    Answers snr (cmdsOf d.fopts) (mi.cfg, m1.region, channelMaskGet m1.region) as1 (cfg1, rg1, mk) ∧
+    (if d.fport = some 0 then ∃ m2, Answers snr (cmdsOf d.payload) (cfg1, rg1, channelMaskGet rg1) as2 (mi'.cfg, mi'.region, m2)
+     else as2 = [] ∧ mi'.cfg = cfg1 ∧ mi'.region = rg1) ∧
+    mi'.st = .joined s' ∧ s'.pending = wires (fit 15 (as1 ++ as2))
+
+theorem step_effects {σ} (g : Rng σ) (m m' : MacState) (rs rs' : σ) (gh : Gh) (hr : GhRel m gh) (data : List Nat) (fport : Nat)
+    (conf : Bool) (rx1 rx2 : Option (RxView × Int)) (mp1 mp2 : Nat) (hv : evOk (.uplink data fport conf none rx1 rx2 mp1 mp2) = true)
+    (out : Out) (h : step g (m, rs) (.uplink data fport conf none rx1 rx2 mp1 mp2) = .ok ((m', rs'), out))
+    (last : Option Nat) (hgh : gh = some last) (N : Nat) (d : RxData) (snr : Int)
+    (hacc : specCycle last rx1 rx2 mp1 mp2 = .accepted N d snr) : Effects g m rs data fport conf d snr m' := by
+  subst hgh
+  obtain ⟨s, hst, rfl, hl⟩ := hr
+  have hvv : rxOk rx1 = true ∧ rxOk rx2 = true := by simpa [evOk] using hv
+  obtain ⟨so, m1, hsend, _, hst1, hcfg1, ht⟩ :=
+    step_uplink_joined g m m' rs rs' s hst hl data fport conf none rx1 rx2 mp1 mp2 hvv.1 hvv.2 out h
+  unfold UplinkTail at ht
+  simp only at ht
+  have hfd : (sentSession s conf).fcntDown = s.fcntDown := rfl
+  rw [hfd, hacc] at ht
+  obtain ⟨ctx, hc, rfl, _⟩ := ht
+  obtain ⟨as1, as2, cfg1, rg1, mk, ha1, ha2, hp⟩ := accept_answers _ _ _ d snr ctx hc
+  rw [hcfg1] at ha1
+  have hcfg' : (acceptState m1 (sentSession s conf) d N ctx).cfg = ctx.cfg := by
+    unfold acceptState acceptFinish; simp only []; split <;> rfl
+  have hreg' : (acceptState m1 (sentSession s conf) d N ctx).region = ctx.region := by
+    unfold acceptState acceptFinish; simp only []; split <;> rfl
+  obtain ⟨fu, e⟩ := acceptFinish_session (sentSession s conf) d N ctx
+  refine ⟨so, m1, rs', as1, as2, cfg1, rg1, mk, _, hsend, hcfg1, ha1, ?_, acceptState_st _ _ d N ctx, by rw [e]; exact hp⟩
+  rw [hcfg', hreg']
+  exact ha2
+
+/-- **C08 effects over every history**: at every uplink of every history in whose Class A windows the
+reference accepts a frame (no radio fault), `Effects` holds between the state before and the state
+after — the state that all later transmissions and receive windows are computed from (C09, C10). -/
+theorem history_effects {σ} (g : Rng σ) (m : MacState) (rs : σ) (gh : Gh) (hr : GhRel m gh) (evs : List Ev)
+    (hv : ∀ ev ∈ evs, evOk ev = true) (ms' : MacState × σ) (outs : List Out) (h : run g (m, rs) evs = .ok (ms', outs))
+    (i : Nat) (data : List Nat) (fport : Nat) (conf : Bool) (rx1 rx2 : Option (RxView × Int)) (mp1 mp2 : Nat) (out : Out)
+    (hi : (evs.zip outs)[i]? = some (.uplink data fport conf none rx1 rx2 mp1 mp2, out))
+    (last : Option Nat) (hlast : ghRun gh (evs.take i) = some last) (N : Nat) (d : RxData) (snr : Int)
+    (hacc : specCycle last rx1 rx2 mp1 mp2 = .accepted N d snr) :
+    ∃ mi rsi mi' rsi', Chain g (m, rs) ((evs.zip outs).take i) (mi, rsi) ∧
+      Chain g (mi', rsi') ((evs.zip outs).drop (i + 1)) ms' ∧ Effects g mi rsi data fport conf d snr mi' := by
+  have hc := run_chain g (m, rs) ms' evs outs h
+  have hlen := run_outs_length g (m, rs) ms' evs outs h
+  obtain ⟨⟨mi, rsi⟩, ⟨mi', rsi'⟩, h1, hstep, h2⟩ := chain_at g (m, rs) ms' (evs.zip outs) i _ out hc hi
+  have hvz : ∀ x ∈ evs.zip outs, evOk x.1 = true := fun x hx => hv x.1 (List.of_mem_zip hx).1
+  have hri := chain_ghRel g (m, rs) (mi, rsi) _ gh hr (fun x hx => hvz x (List.mem_of_mem_take hx)) h1
+  have hmap : ((evs.zip outs).take i).map (·.1) = evs.take i := by
+    rw [List.map_take, List.map_fst_zip]; omega
+  rw [hmap, hlast] at hri
+  exact ⟨mi, rsi, mi', rsi', h1, h2, step_effects g mi mi' rsi rsi' _ hri data fport conf rx1 rx2 mp1 mp2
+    (hvz _ (List.mem_of_getElem? hi)) out hstep last rfl N d snr hacc⟩
+
 /-! non-vacuity: RXParamSetupReq + DevStatusReq in FOpts of a downlink accepted in RX1; the next
 uplink carries both answers, the one after only the sticky RXParamSetupAns, and after the next
 accepted Class A downlink nothing -/
@@ -1397,3 +1461,5 @@ end C08
 #print axioms C08.step_ansRel
 #print axioms C08.history_answers
 #print axioms C08.history_answers_init
+#print axioms C08.step_effects
+#print axioms C08.history_effects
